@@ -35,6 +35,7 @@ config = st.fixed_dictionaries(
         "intercept": st.booleans(),
         "flags": st.sampled_from(FLAGSETS + [["TWOSIDED", "MULTIPART"]] * 16 + [["TWOSIDED", "MULTIPART", "MULTISTAGE"]] * 8),
         "avail": st.one_of(st.none(), st.lists(st.sampled_from(G.NAMES + ["y", "z", "a b"]), unique=True, max_size=5)),
+        "flag_spelling": st.sampled_from([0, 0, 1, 2]),
     }
 )
 
@@ -340,6 +341,10 @@ def gen_reject():
         st.builds(lambda A, B, i: mk("disabled-multistage", f"[{A} ~ {B}]", {"intercept": i, "flags": ["TWOSIDED", "MULTIPART"]}), e, e, st.booleans()),
         st.builds(lambda A, B, c: mk("unbalanced", f"({A} + {B}", c), e, e, cfg),
         st.builds(lambda A, B, c: mk("unbalanced", f"{A} + {B})", c), e, e, cfg),
+        # brackets of different kinds closing each other (the counts balance)
+        st.builds(lambda A, B, C, c: mk("mismatched-brackets", f"({A} + {B}] - {C}", c), e, e, e, cfg),
+        st.builds(lambda A, B, C, c: mk("mismatched-brackets", f"{C} : [{A} + {B})", c), e, e, e, cfg),
+        st.builds(lambda A, B, c: mk("mismatched-brackets", f"{A} ~ ({B} + ({A}])", c), e, e, cfg),
     )
 
 
